@@ -62,6 +62,12 @@ Script ==
          << [t |-> "new", c |-> 0, ver |-> V0],
             [t |-> "new", c |-> 1, ver |-> V1],
             MsgEv(0, [k |-> "CreateBusListener", serial |-> 0]) >>
+    [] ScriptSel = "pend" ->     \* as "svc", and connection 1 has a call pending at connection 0 (caller serial 0, broker serial = InitSerial)
+         << [t |-> "new", c |-> 0, ver |-> V0],
+            MsgEv(0, [k |-> "CreateObject", serial |-> 0, uuid |-> 101]),
+            MsgEv(0, [k |-> "CreateService2", serial |-> 0, obj |-> 1, uuid |-> 201, val |-> 1, info |-> InfoRec(TRUE, 1, 0, "true")]),
+            [t |-> "new", c |-> 1, ver |-> V1],
+            MsgEv(1, [k |-> "CallFunction", serial |-> 0, svc |-> 2, fn |-> 0, hv |-> FALSE, ver |-> 0, val |-> 1]) >>
     [] ScriptSel = "lstf" ->     \* connection 1 owns object 101 (cookie 1); connection 0 owns a listener (cookie 2) with an any-object filter
          << [t |-> "new", c |-> 0, ver |-> V0],
             [t |-> "new", c |-> 1, ver |-> V1],
